@@ -1,7 +1,591 @@
-//! C05 — not implemented yet (see DESIGN.md section 4).
-use kit::Run;
-use serde_json::Value;
+//! C05 — signer trust decisions follow the configured trust policy.
+//! S-inp over configurations: generated hierarchy shape x end-entity EKU x supplied chain variant (signed into a
+//! PNG by the kit's direct-COSE signer) x trust settings (system anchors, user anchors, allow list by PEM / hash,
+//! trust_config EKUs, verify_trust) read through `Reader`; plus the public `CertificateTrustPolicy` driven directly
+//! for the trust-anchor-only mode, which no setting reaches.
+//! Ground truth is by construction (the kit knows who issued what). The property is one-directional
+//! ("trusted only if ..., otherwise untrusted"); "policy satisfied => Trusted" is demanded only for the clean cases
+//! (strictly conforming hierarchy, ordered complete chain) and left open elsewhere.
+//!
+//! Mutants caught (tools/mutant_run.sh E <patch> C05 quick):
+//!   mutants/C05-eku-first-wins.diff      (has_allowed_eku accepts the first "other" EKU)
+//!   mutants/C05-anchors-only-ignored.diff (trust-anchor-only mode still consults user anchors)
 
-pub fn run(_run: &Run, _replay: Option<&Value>) {
-    kit::ev::machinery("C05: check not implemented");
+use std::collections::BTreeMap;
+
+use c2pa::crypto::cose::{CertificateTrustPolicy, TrustAnchorType};
+use kit::{
+    par,
+    pki::{self, Cert, CertSpec, Hierarchy, KeyKind, KitSigner, Ku, Obs},
+    Run,
+};
+use serde_json::{json, Value};
+
+// ---------------------------------------------------------------------------------------------------------
+// factors
+// ---------------------------------------------------------------------------------------------------------
+const SHAPES: &[&str] = &["d0", "d1", "d2", "d3", "d2-inter-not-ca", "d2-inter-no-keyCertSign", "d3-pathlen-exceeded", "d2-inter-expired"];
+const EKUS: &[&str] = &["email", "docsign", "custom", "serverAuth", "any", "absent"];
+const ANCHORS: &[&str] = &["none", "root-sys", "root-user", "issuer-sys", "unrelated-sys", "lookalike-sys", "unrelated-sys+root-user", "root-sys+unrelated-user"];
+const ALLOW: &[&str] = &["none", "ee-pem", "ee-hash", "other-pem"];
+
+fn chains_for(shape: &str) -> &'static [&'static str] {
+    match shape {
+        "d0" => &["leaf-only"],
+        "d1" => &["leaf-only", "complete+root"],
+        "d2" => &["complete", "complete+root", "leaf-only", "foreign-issuer"],
+        "d3" => &["complete", "complete+root", "leaf-only", "missing-upper", "missing-lower", "reordered", "foreign-issuer"],
+        _ => &["complete"],
+    }
+}
+
+fn depth_of(shape: &str) -> usize {
+    shape[1..2].parse().unwrap_or(1)
+}
+
+/// Everything generated for one (shape, key kind, EKU).
+struct World {
+    h: Hierarchy,
+    /// certificate with the same subject name as the end-entity's issuer but another key, from an unrelated root
+    foreign_issuer: Option<Cert>,
+    unrelated_root: Cert,
+    /// self-signed, same subject name as the real root, different key
+    lookalike_root: Option<Cert>,
+    other_ee: Cert,
+}
+
+fn ee_spec(eku: &str, tag: &str) -> CertSpec {
+    let mut s = CertSpec::ee(&format!("{tag} signer"));
+    s.eku = match eku {
+        "email" => Some(vec![pki::EKU_EMAIL.into()]),
+        "docsign" => Some(vec![pki::EKU_DOCSIGN.into()]),
+        "custom" => Some(vec![pki::EKU_CUSTOM.into()]),
+        "serverAuth" => Some(vec![pki::EKU_SERVER.into()]),
+        "any" => Some(vec![pki::EKU_ANY.into()]),
+        _ => None,
+    };
+    s
+}
+
+fn world(shape: &str, kind: KeyKind, eku: &str) -> World {
+    let tag = format!("c05-{shape}");
+    let depth = depth_of(shape);
+    let now = pki::now();
+    let slot = format!("c05-{}", kind.name());
+    // build by hand so that single intermediates can be made defective
+    let ee_key = pki::gen_key(kind, &format!("{slot}-ee"));
+    let h = if depth == 0 {
+        Hierarchy { root: None, inters: vec![], ee: pki::issue(&ee_spec(eku, &tag), &ee_key, None) }
+    } else {
+        let root = pki::issue(&CertSpec::ca(&format!("{tag} Root CA"), None), &pki::gen_key(kind, &format!("{slot}-root")), None);
+        let mut inters: Vec<Cert> = vec![];
+        for i in 1..depth {
+            let mut s = CertSpec::ca(&format!("{tag} Intermediate CA {i}"), None);
+            let is_issuer = i == depth - 1;
+            match shape {
+                "d2-inter-not-ca" => s.basic = Some((false, None)),
+                "d2-inter-no-keyCertSign" => s.key_usage = Some(vec![Ku::DigitalSignature, Ku::CrlSign]),
+                "d3-pathlen-exceeded" if i == 1 => s.basic = Some((true, Some(0))), // yet it issues another CA below
+                "d2-inter-expired" if is_issuer => {
+                    s.not_before = now - 400 * pki::DAY;
+                    s.not_after = now - 30 * pki::DAY;
+                }
+                _ => {}
+            }
+            let parent = inters.last().unwrap_or(&root).clone();
+            inters.push(pki::issue(&s, &pki::gen_key(kind, &format!("{slot}-int{i}")), Some(&parent)));
+        }
+        let parent = inters.last().unwrap_or(&root).clone();
+        let ee = pki::issue(&ee_spec(eku, &tag), &ee_key, Some(&parent));
+        Hierarchy { root: Some(root), inters, ee }
+    };
+    let unrelated_root = pki::issue(&CertSpec::ca(&format!("{tag} Unrelated Root"), None), &pki::gen_key(kind, &format!("{slot}-unrelated")), None);
+    let foreign_issuer = h.inters.last().map(|i| {
+        let mut s = CertSpec::ca(&i.spec.cn, None);
+        s.org = i.spec.org.clone();
+        pki::issue(&s, &pki::gen_key(kind, &format!("{slot}-foreign")), Some(&unrelated_root))
+    });
+    let lookalike_root = h.root.as_ref().map(|r| {
+        let mut s = CertSpec::ca(&r.spec.cn, None);
+        s.org = r.spec.org.clone();
+        pki::issue(&s, &pki::gen_key(kind, &format!("{slot}-lookalike")), None)
+    });
+    let other_ee = pki::issue(&CertSpec::ee(&format!("{tag} other signer")), &pki::gen_key(kind, &format!("{slot}-other")), Some(&unrelated_root));
+    World { h, foreign_issuer, unrelated_root, lookalike_root, other_ee }
+}
+
+/// certificate identities used by the reference model
+#[derive(Clone, Copy, PartialEq, Eq, Debug)]
+enum Id {
+    Ee,
+    /// intermediate i (1 = issued by the root)
+    Inter(usize),
+    Root,
+    ForeignIssuer,
+    Unrelated,
+    Lookalike,
+}
+
+impl World {
+    fn cert(&self, id: Id) -> Option<&Cert> {
+        match id {
+            Id::Ee => Some(&self.h.ee),
+            Id::Inter(i) => self.h.inters.get(i - 1),
+            Id::Root => self.h.root.as_ref(),
+            Id::ForeignIssuer => self.foreign_issuer.as_ref(),
+            Id::Unrelated => Some(&self.unrelated_root),
+            Id::Lookalike => self.lookalike_root.as_ref(),
+        }
+    }
+    /// the true issuer of a hierarchy member (by key, which is what chains are made of)
+    fn issuer_of(&self, id: Id) -> Option<Id> {
+        let n = self.h.inters.len();
+        match id {
+            Id::Ee if self.h.root.is_none() => None,
+            Id::Ee if n == 0 => Some(Id::Root),
+            Id::Ee => Some(Id::Inter(n)),
+            Id::Inter(1) => Some(Id::Root),
+            Id::Inter(i) => Some(Id::Inter(i - 1)),
+            _ => None,
+        }
+    }
+    /// x5chain ids after the end-entity certificate
+    fn supplied(&self, chain: &str) -> Vec<Id> {
+        let n = self.h.inters.len();
+        let bottom_up: Vec<Id> = (1..=n).rev().map(Id::Inter).collect();
+        match chain {
+            "leaf-only" => vec![],
+            "complete" => bottom_up,
+            "complete+root" => {
+                let mut v = bottom_up;
+                v.push(Id::Root);
+                v
+            }
+            "missing-upper" => bottom_up.into_iter().filter(|i| *i != Id::Inter(1)).collect(),
+            "missing-lower" => bottom_up.into_iter().filter(|i| *i != Id::Inter(n)).collect(),
+            "reordered" => (1..=n).map(Id::Inter).collect(),
+            "foreign-issuer" => bottom_up.into_iter().map(|i| if i == Id::Inter(n) { Id::ForeignIssuer } else { i }).collect(),
+            other => kit::ev::machinery(format!("C05: unknown chain variant {other}")),
+        }
+    }
+    fn x5chain(&self, chain: &str) -> Vec<Vec<u8>> {
+        let mut v = vec![self.h.ee.der.clone()];
+        for id in self.supplied(chain) {
+            v.push(self.cert(id).unwrap_or_else(|| kit::ev::machinery("C05: chain refers to a missing certificate")).der.clone());
+        }
+        v
+    }
+}
+
+/// (system anchors, user anchors)
+fn anchor_sets(w: &World, a: &str) -> Option<(Vec<Id>, Vec<Id>)> {
+    let issuer = w.issuer_of(Id::Ee);
+    let r = match a {
+        "none" => (vec![], vec![]),
+        "root-sys" => (vec![Id::Root], vec![]),
+        "root-user" => (vec![], vec![Id::Root]),
+        "issuer-sys" => (vec![issuer?], vec![]),
+        "unrelated-sys" => (vec![Id::Unrelated], vec![]),
+        "lookalike-sys" => (vec![Id::Lookalike], vec![]),
+        "unrelated-sys+root-user" => (vec![Id::Unrelated], vec![Id::Root]),
+        "root-sys+unrelated-user" => (vec![Id::Root], vec![Id::Unrelated]),
+        other => kit::ev::machinery(format!("C05: unknown anchors {other}")),
+    };
+    // every named certificate must exist for this shape
+    if r.0.iter().chain(r.1.iter()).all(|id| w.cert(*id).is_some()) {
+        Some(r)
+    } else {
+        None
+    }
+}
+
+/// Reference model: does the end-entity certificate chain, through supplied certificates only, to one of `anchors`?
+/// None = the hierarchy has a defect whose effect on a path the property leaves open (expired intermediate).
+fn links(w: &World, shape: &str, supplied: &[Id], anchors: &[Id]) -> Option<bool> {
+    let defective_ca = |id: Id| -> Option<bool> {
+        // Some(true): certificate cannot act as an issuer at all; None: open
+        match (shape, id) {
+            ("d2-inter-not-ca", Id::Inter(1)) | ("d2-inter-no-keyCertSign", Id::Inter(1)) => Some(true),
+            // intermediate 1 has pathLenConstraint 0 but intermediate 2 (a CA) follows it
+            ("d3-pathlen-exceeded", Id::Inter(1)) => Some(true),
+            ("d2-inter-expired", Id::Inter(1)) => None,
+            _ => Some(false),
+        }
+    };
+    let mut cur = Id::Ee;
+    let mut open = false;
+    for _ in 0..6 {
+        let Some(iss) = w.issuer_of(cur) else { return Some(false) };
+        match defective_ca(iss) {
+            Some(true) => return Some(false),
+            None => open = true,
+            Some(false) => {}
+        }
+        if anchors.contains(&iss) {
+            return if open { None } else { Some(true) };
+        }
+        if supplied.contains(&iss) {
+            cur = iss;
+        } else {
+            return Some(false);
+        }
+    }
+    Some(false)
+}
+
+fn eku_accepted(eku: &str, trust_config_custom: bool) -> bool {
+    match eku {
+        "email" | "docsign" => true,
+        "custom" => trust_config_custom,
+        _ => false,
+    }
+}
+
+#[derive(Clone, Debug)]
+struct Cfg {
+    anchors: &'static str,
+    allow: &'static str,
+    tc: bool,
+    vt: bool,
+}
+
+struct Truth {
+    /// policy condition of the property: allow-listed, or linked to an admitted anchor with an accepted EKU
+    cond: Option<bool>,
+    /// "cond => Trusted" is demanded only here
+    clean: bool,
+    allow_hit: bool,
+    linked: Option<bool>,
+    eku_ok: bool,
+}
+
+fn truth(w: &World, shape: &str, eku: &str, chain: &str, cfg: &Cfg) -> Option<Truth> {
+    let (sys, user) = anchor_sets(w, cfg.anchors)?;
+    let supplied = w.supplied(chain);
+    let all: Vec<Id> = sys.iter().chain(user.iter()).copied().collect();
+    let linked = links(w, shape, &supplied, &all);
+    let allow_hit = matches!(cfg.allow, "ee-pem" | "ee-hash");
+    let eku_ok = eku_accepted(eku, cfg.tc);
+    let cond = if allow_hit {
+        Some(true)
+    } else {
+        match linked {
+            Some(l) => Some(l && eku_ok),
+            None => {
+                if eku_ok {
+                    None
+                } else {
+                    Some(false)
+                }
+            }
+        }
+    };
+    // clean: strictly conforming hierarchy, chain supplied in order without extras, accepted EKU, not self-signed
+    let clean = matches!(shape, "d1" | "d2" | "d3") && matches!(chain, "complete" | "leaf-only") && eku_ok;
+    Some(Truth { cond, clean, allow_hit, linked, eku_ok })
+}
+
+fn reader_ctx(w: &World, cfg: &Cfg) -> c2pa::Context {
+    let (sys, user) = anchor_sets(w, cfg.anchors).unwrap_or_default();
+    let pem = |ids: &[Id]| ids.iter().filter_map(|i| w.cert(*i)).map(|c| c.pem()).collect::<String>();
+    let mut trust = serde_json::Map::new();
+    if !sys.is_empty() {
+        trust.insert("trust_anchors".into(), json!(pem(&sys)));
+    }
+    if !user.is_empty() {
+        trust.insert("user_anchors".into(), json!(pem(&user)));
+    }
+    match cfg.allow {
+        "ee-pem" => trust.insert("allowed_list".into(), json!(w.h.ee.pem())),
+        "ee-hash" => trust.insert("allowed_list".into(), json!(format!("{}\n", w.h.ee.allow_hash()))),
+        "other-pem" => trust.insert("allowed_list".into(), json!(w.other_ee.pem())),
+        _ => None,
+    };
+    if cfg.tc {
+        trust.insert("trust_config".into(), json!(pki::EKU_CUSTOM));
+    }
+    pki::read_ctx(Value::Object(trust), json!({"verify_trust": cfg.vt}))
+}
+
+fn case_json(shape: &str, kind: KeyKind, eku: &str, chain: &str, cfg: &Cfg) -> Value {
+    json!({"seam":"reader","shape":shape,"kind":kind.name(),"eku":eku,"chain":chain,"anchors":cfg.anchors,"allow":cfg.allow,"trust_config_custom":cfg.tc,"verify_trust":cfg.vt})
+}
+
+fn judge(run: &Run, shape: &str, kind: KeyKind, eku: &str, chain: &str, cfg: &Cfg, t: &Truth, o: &Result<Obs, String>) {
+    run.eval();
+    let case = case_json(shape, kind, eku, chain, cfg);
+    let tail = format!("shape={shape} chain={chain} eku={eku} anchors={} allow={} tc={} kind={}", cfg.anchors, cfg.allow, cfg.tc, kind.name());
+    let o = match o {
+        Err(p) => {
+            run.outcome("panic");
+            run.violation(format!("panic {tail}"), p.clone(), case);
+            return;
+        }
+        Ok(o) => o,
+    };
+    if cfg.vt && (cfg.anchors != "none" || cfg.allow != "none") {
+        run.nontrivial(format!("{tail} vt"));
+    }
+    let t_state = o.state == "Trusted";
+    let t_code = o.any("signingCredential.trusted");
+    let u_code = o.any("signingCredential.untrusted");
+    run.outcome(format!("vt={} cond={:?} -> {} trustedcode={} untrustedcode={}", cfg.vt, t.cond, o.state, t_code, u_code));
+    let why = format!(
+        "allow-listed={} linked-to-anchor={:?} eku-accepted={} => policy condition {:?}; observed state {} codes {:?}",
+        t.allow_hit, t.linked, t.eku_ok, t.cond, o.state, o.pick(&["signingCredential"])
+    );
+    if !cfg.vt {
+        // with trust verification disabled no trust verdict is issued
+        if t_state || t_code || u_code {
+            run.violation(format!("verdict-with-verify_trust-off state={} trusted={t_code} untrusted={u_code} {tail}", o.state), why, case);
+        }
+        return;
+    }
+    match t.cond {
+        Some(false) => {
+            if t_state {
+                run.violation(format!("trusted-state policy-unsatisfied {tail}"), why, case);
+            } else if t_code {
+                let reason = if t.linked != Some(false) && !t.eku_ok { "eku-unaccepted" } else { "no-path" };
+                let key = if reason == "eku-unaccepted" {
+                    format!("trusted-code policy-unsatisfied reason=eku-unaccepted eku={eku}")
+                } else {
+                    format!("trusted-code policy-unsatisfied reason=no-path {tail}")
+                };
+                run.violation(key, format!("{tail}: {why}"), case);
+            } else if !u_code && !o.state.starts_with("Err") {
+                run.violation(format!("not-reported-untrusted {tail}"), why, case);
+            }
+        }
+        Some(true) => {
+            if t.clean && !t_state {
+                run.violation(format!("not-trusted policy-satisfied state={} {tail}", o.state), why, case);
+            }
+        }
+        None => {}
+    }
+}
+
+// ---------------------------------------------------------------------------------------------------------
+// direct seam: CertificateTrustPolicy, including trust-anchor-only mode
+// ---------------------------------------------------------------------------------------------------------
+fn direct(run: &Run, w: &World, shape: &str, kind: KeyKind, chain: &str) {
+    let pool = [None, Some(Id::Root), Some(Id::Inter(w.h.inters.len().max(1))), Some(Id::Unrelated), Some(Id::Lookalike)];
+    let x5 = w.x5chain(chain);
+    let supplied = w.supplied(chain);
+    for sys in pool {
+        for user in pool {
+            if [sys, user].iter().flatten().any(|id| w.cert(*id).is_none()) {
+                continue;
+            }
+            for allow in ["none", "ee-pem", "other-pem"] {
+                for tao in [false, true] {
+                    let mut ctp = CertificateTrustPolicy::new();
+                    ctp.add_default_valid_ekus();
+                    if let Some(id) = sys {
+                        let _ = ctp.add_trust_anchors(w.cert(id).map(|c| c.pem()).unwrap_or_default().as_bytes());
+                    }
+                    if let Some(id) = user {
+                        let _ = ctp.add_user_trust_anchors(w.cert(id).map(|c| c.pem()).unwrap_or_default().as_bytes());
+                    }
+                    match allow {
+                        "ee-pem" => {
+                            let _ = ctp.add_end_entity_credentials(w.h.ee.pem().as_bytes());
+                        }
+                        "other-pem" => {
+                            let _ = ctp.add_end_entity_credentials(w.other_ee.pem().as_bytes());
+                        }
+                        _ => {}
+                    }
+                    ctp.set_trust_anchors_only(tao);
+                    let r = par::guard(|| ctp.check_certificate_trust(&x5[1..], &x5[0], None));
+                    run.eval();
+                    let sysv: Vec<Id> = sys.into_iter().collect();
+                    let userv: Vec<Id> = user.into_iter().collect();
+                    let l_sys = links(w, shape, &supplied, &sysv);
+                    let l_user = links(w, shape, &supplied, &userv);
+                    let tail = format!("shape={shape} chain={chain} sys={sys:?} user={user:?} allow={allow} anchors_only={tao} kind={}", kind.name());
+                    let case = json!({"seam":"direct","shape":shape,"kind":kind.name(),"chain":chain,"sys":format!("{sys:?}"),"user":format!("{user:?}"),"allow":allow,"anchors_only":tao});
+                    if tao && user.is_some() {
+                        run.nontrivial(format!("direct {tail}"));
+                    }
+                    let r = match r {
+                        Err(p) => {
+                            run.violation(format!("direct panic {tail}"), p, case);
+                            continue;
+                        }
+                        Ok(r) => r,
+                    };
+                    run.outcome(format!("direct {}", match &r { Ok(t) => format!("Ok({t:?})"), Err(e) => format!("Err({e:?})") }));
+                    let why = format!("linked via system anchors {l_sys:?}, via user anchors {l_user:?}, allow-listed {}; result {r:?}", allow == "ee-pem");
+                    match r {
+                        Ok(TrustAnchorType::EndEntity) => {
+                            if allow != "ee-pem" {
+                                run.violation(format!("direct allow-list-hit-without-entry {tail}"), why, case);
+                            }
+                        }
+                        Ok(TrustAnchorType::System) => {
+                            if l_sys == Some(false) {
+                                run.violation(format!("direct system-trust-without-path {tail}"), why, case);
+                            }
+                        }
+                        Ok(TrustAnchorType::User) => {
+                            if tao {
+                                run.violation(format!("direct user-anchor-accepted-in-anchors-only-mode {tail}"), why, case);
+                            } else if l_user == Some(false) {
+                                run.violation(format!("direct user-trust-without-path {tail}"), why, case);
+                            }
+                        }
+                        Ok(TrustAnchorType::NoCheck) => run.violation(format!("direct nocheck-from-non-passthrough-policy {tail}"), why, case),
+                        Err(_) => {
+                            let clean = matches!(shape, "d1" | "d2" | "d3") && matches!(chain, "complete" | "leaf-only");
+                            let must = allow == "ee-pem" || (clean && (l_sys == Some(true) || (!tao && l_user == Some(true))));
+                            if must {
+                                run.violation(format!("direct rejected policy-satisfied {tail}"), why, case);
+                            }
+                        }
+                    }
+                }
+            }
+        }
+    }
+}
+
+// ---------------------------------------------------------------------------------------------------------
+fn configs(eku: &str, thorough: bool) -> Vec<Cfg> {
+    let mut v = vec![];
+    for anchors in ANCHORS {
+        for allow in ALLOW {
+            for tc in [false, true] {
+                if tc && eku != "custom" && !(thorough && eku == "serverAuth") {
+                    continue; // trust_config only matters for the OID it lists
+                }
+                for vt in [true, false] {
+                    v.push(Cfg { anchors, allow, tc, vt });
+                }
+            }
+        }
+    }
+    v
+}
+
+/// `openssl verify` must agree with the reference model wherever the model is definite and the case clean
+/// (otherwise the harness's own ground truth is in doubt: machinery failure, never a verdict).
+fn cross_check_model(w: &World, shape: &str, chain: &str) -> u64 {
+    let mut n = 0;
+    for a in ["root-sys", "issuer-sys", "unrelated-sys", "lookalike-sys"] {
+        let Some((sys, _)) = anchor_sets(w, a) else { continue };
+        let model = links(w, shape, &w.supplied(chain), &sys);
+        let anchors: Vec<Vec<u8>> = sys.iter().filter_map(|i| w.cert(*i)).map(|c| c.der.clone()).collect();
+        let ossl = pki::verify_cli(&anchors, &w.x5chain(chain));
+        n += 1;
+        let clean = matches!(shape, "d1" | "d2" | "d3") && matches!(chain, "complete" | "leaf-only");
+        match model {
+            Some(false) if ossl => kit::ev::machinery(format!("C05: reference model says no path but openssl verify accepts: {shape} {chain} {a}")),
+            Some(true) if clean && !ossl => kit::ev::machinery(format!("C05: reference model says path but openssl verify rejects: {shape} {chain} {a}")),
+            _ => {}
+        }
+    }
+    n
+}
+
+fn run_reader_case(run: &Run, shape: &str, kind: KeyKind, eku: &str, chain: &str, cfgs: &[Cfg], w: &World) {
+    let signer = KitSigner::new(&w.h.ee.key, w.x5chain(chain)).direct();
+    let signed = match pki::sign_asset(&signer, "image/png", &kit::assets::png(), pki::DEF_V2) {
+        Ok(b) => b,
+        Err(e) => kit::ev::machinery(format!("C05: direct-COSE signing failed for {shape}/{eku}/{chain}: {e}")),
+    };
+    for cfg in cfgs {
+        let Some(t) = truth(w, shape, eku, chain, cfg) else { continue };
+        let o = pki::observe(reader_ctx(w, cfg), "image/png", &signed);
+        judge(run, shape, kind, eku, chain, cfg, &t, &o);
+    }
+}
+
+pub fn run(run: &Run, replay: Option<&Value>) {
+    run.rule("hierarchy shape (depth 0-3, intermediate not a CA / without keyCertSign / pathLen exceeded / expired) x EE EKU (email, documentSigning, custom OID, serverAuth, anyEKU, absent) \
+              x supplied chain (complete, +root, leaf only, missing upper/lower intermediate, reordered, same-name issuer from another root) x anchors (none, root as system/user, EE issuer as system, \
+              unrelated, same-name look-alike root, mixed) x allow list (none, EE PEM, EE hash, other) x trust_config x verify_trust, full cross through Reader; plus CertificateTrustPolicy directly \
+              with every (system, user) anchor pair x allow list x trust-anchor-only mode. non-trivial = configurations with verify_trust on and some trust material configured (Reader), \
+              and direct cases with a user anchor in trust-anchor-only mode.");
+    run.assume("ground truth by construction: the kit knows which key signed which certificate; it is cross-checked against `openssl verify -x509_strict -partial_chain` for every (shape, chain, single anchor) and a disagreement on a definite case is a machinery failure");
+    run.assume("'policy satisfied => Trusted' is demanded only for strictly conforming hierarchies with an ordered chain and an accepted EKU; an expired intermediate, a supplied root, a reordered chain and allow-listed certificates with an unaccepted EKU are checked in the direction 'trusted => policy satisfied' only");
+    run.assume("an end-entity certificate configured as its own trust anchor is not enumerated (the property does not say whether that is a chain)");
+    if !pki::cli_available() {
+        kit::ev::machinery("C05: openssl CLI not available");
+    }
+    let kinds: Vec<KeyKind> = if run.tier.is_thorough() { vec![KeyKind::P256, KeyKind::Ed25519, KeyKind::Rsa2048, KeyKind::P384] } else { vec![KeyKind::P256] };
+
+    if let Some(c) = replay {
+        let shape = SHAPES.iter().find(|s| Some(**s) == c["shape"].as_str()).copied().unwrap_or("d1");
+        let kind = KeyKind::from_name(c["kind"].as_str().unwrap_or("p256"));
+        let chain_s = c["chain"].as_str().unwrap_or("complete");
+        let chain = chains_for(shape).iter().find(|x| **x == chain_s).copied().unwrap_or_else(|| kit::ev::machinery("C05 replay: chain variant not valid for shape"));
+        if c["seam"] == "direct" {
+            let w = world(shape, kind, "email");
+            direct(run, &w, shape, kind, chain);
+            return;
+        }
+        let eku = EKUS.iter().find(|s| Some(**s) == c["eku"].as_str()).copied().unwrap_or("email");
+        let cfg = Cfg {
+            anchors: ANCHORS.iter().find(|s| Some(**s) == c["anchors"].as_str()).copied().unwrap_or("none"),
+            allow: ALLOW.iter().find(|s| Some(**s) == c["allow"].as_str()).copied().unwrap_or("none"),
+            tc: c["trust_config_custom"].as_bool().unwrap_or(false),
+            vt: c["verify_trust"].as_bool().unwrap_or(true),
+        };
+        let w = world(shape, kind, eku);
+        println!("replay {c}\n  end-entity certificate:\n{}", w.h.ee.pem());
+        run_reader_case(run, shape, kind, eku, chain, &[cfg], &w);
+        return;
+    }
+
+    // determinism / baseline: a clean d2 chain with the root anchored must read Trusted twice
+    {
+        let w = world("d2", KeyKind::P256, "email");
+        let signer = KitSigner::new(&w.h.ee.key, w.x5chain("complete")).direct();
+        let signed = pki::sign_asset(&signer, "image/png", &kit::assets::png(), pki::DEF_V2).unwrap_or_else(|e| kit::ev::machinery(format!("C05 baseline sign: {e}")));
+        let cfg = Cfg { anchors: "root-sys", allow: "none", tc: false, vt: true };
+        let a = pki::observe(reader_ctx(&w, &cfg), "image/png", &signed);
+        let b = pki::observe(reader_ctx(&w, &cfg), "image/png", &signed);
+        run.evals(2);
+        if a != b {
+            kit::ev::machinery(format!("C05: baseline not deterministic: {a:?} vs {b:?}"));
+        }
+        run.sample(json!({"baseline": case_json("d2", KeyKind::P256, "email", "complete", &cfg), "observed": a.as_ref().map(|o| o.class()).unwrap_or_default()}));
+    }
+
+    // work items: (shape, kind, eku, chain)
+    let mut items: Vec<(&str, KeyKind, &str, &str)> = vec![];
+    for &kind in &kinds {
+        for shape in SHAPES {
+            for eku in EKUS {
+                for chain in chains_for(shape) {
+                    items.push((shape, kind, eku, chain));
+                }
+            }
+        }
+    }
+    let n_cfg: u64 = items.iter().map(|(_, _, eku, _)| configs(eku, run.tier.is_thorough()).len() as u64).sum();
+    run.space("Reader: (shape, key type, EKU, chain variant) x (anchors, allow list, trust_config, verify_trust)", n_cfg, true);
+    let cli_checks = std::sync::atomic::AtomicU64::new(0);
+    // worlds are per (shape, kind, eku); build them once per item (generation is cheap except RSA, which is cached)
+    par::for_each(&items, |(shape, kind, eku, chain)| {
+        let w = world(shape, *kind, eku);
+        if *eku == "email" {
+            cli_checks.fetch_add(cross_check_model(&w, shape, chain), std::sync::atomic::Ordering::Relaxed);
+        }
+        run_reader_case(run, shape, *kind, eku, chain, &configs(eku, run.tier.is_thorough()), &w);
+    });
+    run.extra("openssl_verify_cross_checks_of_the_reference_model", json!(cli_checks.load(std::sync::atomic::Ordering::Relaxed)));
+
+    // direct seam
+    let ditems: Vec<(&str, KeyKind, &str)> = items.iter().filter(|i| i.2 == "email").map(|i| (i.0, i.1, i.3)).collect();
+    let before = BTreeMap::<u8, u8>::new();
+    let _ = before;
+    run.space("CertificateTrustPolicy: (shape, key type, chain) x (system anchor, user anchor) x allow list x trust-anchor-only", ditems.len() as u64 * 5 * 5 * 3 * 2, true);
+    par::for_each(&ditems, |(shape, kind, chain)| {
+        let w = world(shape, *kind, "email");
+        direct(run, &w, shape, *kind, chain);
+    });
+    run.sample(json!({"reader_case": case_json("d3", KeyKind::P256, "custom", "missing-upper", &Cfg{anchors:"root-user", allow:"ee-hash", tc:true, vt:true})}));
 }
